@@ -255,4 +255,39 @@ theorem C01_grammar_linear (ts : List (Term K)) : IsLinear (evalLinForm ts) := b
     · intro w
       rw [hc, ih.zero, Pi.zero_apply]; ring
 
+/-! ### sums over lists of bases, emission order -/
+
+/-- **`asm` over a list of bases sums the contributions**: concatenating the triplet lists of the
+    parts (what `COOData.__add__` / `asm(form, [bases])` do) adds the matrices entry by entry … -/
+theorem C01_dense_append (T1 T2 : List (Nat × Nat × K)) (r c : Nat) :
+    denseEntry (T1 ++ T2) r c = denseEntry T1 r c + denseEntry T2 r c := by
+  simp [denseEntry, List.filter_append, List.map_append, List.sum_append]
+
+theorem C01_denseVec_append (T1 T2 : List (Nat × K)) (r : Nat) :
+    denseVecEntry (T1 ++ T2) r = denseVecEntry T1 r + denseVecEntry T2 r := by
+  simp [denseVecEntry, List.filter_append, List.map_append, List.sum_append]
+
+/-- … and the bilinear / linear actions -/
+theorem C01_action_append (T1 T2 : List (Nat × Nat × K)) (u v : Nat → K) :
+    actionBil (T1 ++ T2) u v = actionBil T1 u v + actionBil T2 u v := by
+  simp [actionBil, List.map_append, List.sum_append]
+
+theorem C01_actionLin_append (T1 T2 : List (Nat × K)) (v : Nat → K) :
+    actionLin (T1 ++ T2) v = actionLin T1 v + actionLin T2 v := by
+  simp [actionLin, List.map_append, List.sum_append]
+
+/-- the order in which triplets are emitted (cell order, pair order, thread schedule) is
+    irrelevant for every entry of the assembled matrix -/
+theorem C01_dense_perm (T1 T2 : List (Nat × Nat × K)) (h : T1.Perm T2) (r c : Nat) :
+    denseEntry T1 r c = denseEntry T2 r c := by
+  unfold denseEntry
+  exact ((h.filter _).map _).sum_eq
+
+/-- a whole list of parts: the dense entry of the joined triplets is the sum over the parts -/
+theorem C01_dense_flatten (Ts : List (List (Nat × Nat × K))) (r c : Nat) :
+    denseEntry Ts.flatten r c = (Ts.map (fun T => denseEntry T r c)).sum := by
+  induction Ts with
+  | nil => simp [denseEntry]
+  | cons T Ts ih => rw [List.flatten_cons, C01_dense_append, ih]; simp
+
 end Skv.C01
